@@ -393,6 +393,7 @@ pub fn run(seed: u64, tiny: bool, focus: &str) -> Outcome {
     c04(&h, 0, &mut v, "C04");
     c04(&h, 0, &mut v, "C15");
     crate::fam_d::c14(&h, 0, &mut v);
+    crate::fam_c::c05(&h, 0, &mut v);
     c01(&h, 0, &mut v);
     c02(&h, 0, &mut v);
     crate::oracle_m::c18(&h, &w, 0, &mut v);
